@@ -229,13 +229,57 @@ Definition timed_history_grpc (P : params) (evs : list (N * op)) (horizon : N) :
   let x2 := advance 400 P x1 horizon in
   map (fun t => (grpc_outcome_code (tlookup (thr (ts x2)) t), outcome_stream (tlookup (thr (ts x2)) t))) tids.
 
+(* With multiplexing a listener stays open: a later Dial of an id that was dialled before is a fresh knock on the same
+   listener (one establishment after another, as documented; each establishment on its own is C08's model GrpcMux.v).
+   Here only its outcome: answered by the listener accepted on that id, provided that listener was opened before. *)
+Fixpoint mark_redials (seen : list N) (evs : list (N * op)) : list bool :=
+  match evs with
+  | [] => []
+  | e :: r => match snd e with
+              | OpAccept n => existsb (N.eqb n) seen :: mark_redials (n :: seen) r
+              | _ => false :: mark_redials seen r
+              end
+  end.
+Fixpoint keep_unmarked {A} (l : list A) (marks : list bool) : list A :=
+  match l, marks with
+  | x :: r, false :: mr => x :: keep_unmarked r mr
+  | _ :: r, true :: mr => keep_unmarked r mr
+  | _, _ => []
+  end.
+(* the sender (GRPCBroker.Accept) of id n among the primary events, with its outcome *)
+Fixpoint sender_of (n : N) (evs : list (N * op)) (outs : list (Z * Z)) : option (N * (Z * Z)) :=
+  match evs, outs with
+  | e :: r, o :: ro => match snd e with
+                       | OpDial k => if N.eqb k n then Some (fst e, o) else sender_of n r ro
+                       | _ => sender_of n r ro
+                       end
+  | _, _ => None
+  end.
+Fixpoint merge_redials (prim : list (N * op)) (pouts : list (Z * Z)) (evs : list (N * op)) (marks : list bool) (rest : list (Z * Z))
+  : list (Z * Z) :=
+  match evs, marks with
+  | e :: r, false :: mr => match rest with o :: ro => o :: merge_redials prim pouts r mr ro | [] => [] end
+  | e :: r, true :: mr =>
+      (match sender_of (ev_id e) prim pouts with
+       | Some (t, (5%Z, tok)) => if N.leb t (fst e) then (1%Z, tok) else (2%Z, (-1)%Z)
+       | _ => (2%Z, (-1)%Z)
+       end) :: merge_redials prim pouts r mr rest
+  | _, _ => []
+  end.
+Definition timed_history_grpc_mux (P : params) (evs : list (N * op)) (horizon : N) : list (Z * Z) :=
+  let marks := mark_redials [] evs in
+  let prim := keep_unmarked evs marks in
+  let pouts := timed_history_grpc P prim horizon in
+  merge_redials prim pouts evs marks pouts.
+
 Definition check_grpctimed (P : params) (inp obs : V) : verdict :=
   match inp, obs with
   | VL [VL evs; VI hz; mux], VL [VL outs; VI main_ok] =>
       match omap devent evs,
             omap (fun v => match v with VL [VI o; VI tok] => Some (o, tok) | _ => None end) outs with
       | Some evs, Some outs =>
-          let m := timed_history_grpc P evs (Z.to_N hz) in
+          let m := if match dbool mux with Some true => true | _ => false end
+                   then timed_history_grpc_mux P evs (Z.to_N hz) else timed_history_grpc P evs (Z.to_N hz) in
           {| v_decoded := true;
              v_agree := listZ_eqb (map fst m) (map fst outs) && same_partition (map snd m) (map snd outs) && Z.eqb main_ok 1;
              (* property oracle (C07/C08 routing): a Dial(n) that got an answer was answered by the server accepted on n;
